@@ -25,6 +25,12 @@ def free_port():
 
 
 def client_stream(rng, kind):
+    if kind == "reportrace":
+        # a long stream of short messages: the queue of recent messages is updated tens of thousands of times
+        out = b""
+        while len(out) < 400000:
+            out += pygen.frame(pygen.payload(rng, rng.choice([1005, 1230] + pygen.MSM), rng.randint(4, 30)))
+        return out
     if kind == "slowserver":
         # several hundred kilobytes: more than the socket buffers between the proxy and a server that is not reading
         out = b""
@@ -87,7 +93,8 @@ def session(ctx, binary, n, rng, kind, cert=None):
        second     after an ordinary session the client leaves and a second client uses the same proxy process
        quiet      the proxy is started with -q (message log off)
        loglevel0  the message log is turned off through /status/loglevel/0 before the traffic starts
-       slowserver the upstream server reads nothing for 2 s while the client sends 600 kB"""
+       slowserver the upstream server reads nothing for 2 s while the client sends 600 kB
+       reportrace three threads reload /status/report all the time while 400 kB of short messages flow"""
     d = ctx.path("sess%d" % n)
     os.makedirs(d)
     tls = kind.startswith("tls")
@@ -158,7 +165,7 @@ def session(ctx, binary, n, rng, kind, cert=None):
         def pump(sock, data, seed):
             r = random.Random(seed)
             i = 0
-            if kind in ("bulk", "burst", "bigburst", "slowserver") and sock is cli:
+            if kind in ("bulk", "burst", "bigburst", "slowserver", "reportrace") and sock is cli:
                 try:
                     sock.sendall(data)      # all at once: the proxy's reads fill its buffer
                 except OSError:
@@ -209,6 +216,16 @@ def session(ctx, binary, n, rng, kind, cert=None):
                 pass
 
         stop = threading.Event()
+        if skind == "reportrace":
+            # the operator's browser reloads the status page all the time while the traffic flows
+            def reload():
+                while not stop.is_set():
+                    try:
+                        urllib.request.urlopen("http://127.0.0.1:%d/status/report" % cport, timeout=5).read()
+                    except Exception:          # noqa
+                        time.sleep(0.05)
+            for _ in range(3):
+                threading.Thread(target=reload, daemon=True).start()
         if closing:
             # first the server's greeting reaches the client, then the client says everything at once and leaves;
             # in every second such session it is the server that speaks last and leaves
@@ -503,8 +520,8 @@ def run(ctx, replay):
     binary = build_binary(ctx, "proxy")
     rng = random.Random(ctx.seed * 104729 + 19)
     kinds = ["valid", "malformed", "html", "random", "mixed", "many", "bulk", "burst", "bigburst", "bulk", "mixed", "html", "burst",
-             "close", "tls12close", "tls13", "tls12close", "close", "second", "quiet", "loglevel0", "slowserver"]
-    nsess = 110 if ctx.thorough() else 22
+             "close", "tls12close", "tls13", "tls12close", "close", "second", "quiet", "loglevel0", "slowserver", "reportrace"]
+    nsess = 115 if ctx.thorough() else 23
     cert = ctx.path("upstream")
     ctx.drive(ctx.build_harness(), ["gencert", cert])
     events = []
